@@ -698,9 +698,17 @@ func fieldAddrKey(v ssa.Value) (FieldKey, bool) {
 // and returns the values the copies originate from: allocations, call
 // results, parameters of uncalled functions, globals, constants.
 func (p *Prog) Origins(v ssa.Value) []ssa.Value {
+	out, _ := p.OriginsVia(v)
+	return out
+}
+
+// OriginsVia is Origins plus the fields the value was loaded from on its way
+// (the objects it was parked in).
+func (p *Prog) OriginsVia(v ssa.Value) ([]ssa.Value, []FieldKey) {
 	p.prov()
 	seen := map[ssa.Value]bool{}
 	var out []ssa.Value
+	var via []FieldKey
 	var visit func(v ssa.Value, d int)
 	visit = func(v ssa.Value, d int) {
 		if v == nil || seen[v] || d > 100 {
@@ -763,6 +771,9 @@ func (p *Prog) Origins(v ssa.Value) []ssa.Value {
 				out = append(out, v)
 				return
 			}
+			if k, _, ok := fieldLoad(x); ok {
+				via = append(via, k)
+			}
 			found := false
 			for _, l := range p.Backing(x.X) {
 				for _, w := range p.pi.writes[l] {
@@ -791,5 +802,5 @@ func (p *Prog) Origins(v ssa.Value) []ssa.Value {
 		}
 	}
 	visit(v, 0)
-	return out
+	return out, via
 }
